@@ -168,6 +168,42 @@ func c04Judge(c *hx.Ctx, s *p7Seed, blob []byte, class string, isSeed bool) {
 	}
 }
 
+// c04Order verifies ONE parsed object against the three certificates in every order (and twice):
+// each verdict must be the one a fresh parse gives.
+func c04Order(c *hx.Ctx, s *p7Seed) {
+	certs := []*x509.Certificate{s.Signer, s.Wrong, s.SameName}
+	names := []string{"signer's certificate", "another certificate", "same issuer+serial, other key"}
+	fresh := make([]bool, 3)
+	for i, ct := range certs {
+		if p, err := pkcs7.ParsePKCS7(s.Blob); err == nil {
+			hx.Try(func() { fresh[i], _ = p.Verify(ct) })
+		}
+	}
+	orders := [][]int{{0, 1, 2}, {0, 2, 1}, {1, 0, 2}, {1, 2, 0}, {2, 0, 1}, {2, 1, 0}}
+	for _, o := range orders {
+		seq := append(append([]int{}, o...), o...)
+		if !c.Next() {
+			continue
+		}
+		p, err := pkcs7.ParsePKCS7(s.Blob)
+		if err != nil {
+			continue
+		}
+		for _, ci := range seq {
+			var ok bool
+			if pn := hx.Try(func() { ok, _ = p.Verify(certs[ci]) }); pn != nil {
+				break
+			}
+			if ok != fresh[ci] {
+				c.Outcome("order-dependent")
+				c.Violation("C04 verdict depends on verifications made earlier on the same parsed object (against "+names[ci]+")", map[string]any{"seed": s.Name, "order": seq, "fresh_verdicts": fresh})
+				break
+			}
+		}
+		c.Outcome("order-independent")
+	}
+}
+
 // classKind strips indices from a derivation label.
 func classKind(class string) string {
 	if i := strings.Index(class, " @"); i >= 0 {
@@ -187,6 +223,7 @@ func c04Run(c *hx.Ctx, tier, unit string) {
 	case "edits":
 		c.Sample(map[string]any{"seed": s.Name, "producer": s.Producer, "blob_len": len(s.Blob), "has_attrs": s.HasAttrs})
 		c04Judge(c, s, s.Blob, "untouched seed", true)
+		c04Order(c, s)
 		// the bare form (no outer ContentInfo) of the seed is a valid input too
 		for _, e := range p7Edits(*s) {
 			c.Count("structural_edits", 1)
